@@ -384,7 +384,8 @@ int main (int argc, char **argv)
   if (strcmp (argv[4], "-") != 0) { char *q = argv[4]; while (*q && nsched < 4096) { sched[nsched++] = (int) strtol (q, &q, 10); if (*q == ',') q++; } }
   if (strstr (bodies, "2")) ncalls = 2;
   _dbus_verif_clock_hook = clock_hook;
-  if (!setup (argv[1], ncalls, free_run ? 300 : 5000)) { printf ("status=setup-failed\n"); return 0; }
+  /* "inf" in the environment spec: the calls are made with DBUS_TIMEOUT_INFINITE (a wait that misses its reply never ends) */
+  if (!setup (argv[1], ncalls, free_run ? 300 : (strstr (env_spec, "inf") ? DBUS_TIMEOUT_INFINITE : 5000))) { printf ("status=setup-failed\n"); return 0; }
   for (p = strtok (bodies, ","); p && nthr < MAXT; p = strtok (NULL, ","))
     { thr[nthr].id = nthr; thr[nthr].body = p; thr[nthr].alive = 1; sem_init (&thr[nthr].sem, 0, 0); nthr++; }
   sem_init (&main_sem, 0, 0);
